@@ -46,9 +46,11 @@ Sp == CASE SpaceSel = "tiny" ->   \* up to 2 manifests, every set of blobs, ever
 TagChoices(M) == CASE Sp.tg = "all" -> AllTags(M) [] Sp.tg = "one" -> OneTag(M) [] OTHER -> FewTags(M)
 \* picked component by component (TLC sorts a set it enumerates, quadratically for sets of records)
 MCChoose ==
-  \E n \in Sp.ns : \E b \in Sp.bs :
-    LET M == FirstMans(n) IN
-    \E f \in [M -> SubjChoices(M)] : \E tg \in TagChoices(M) :
+  \E n \in Sp.ns :
+    LET M == FirstMans(n)
+        tgs == TagChoices(M)
+        subjs == [M -> SubjChoices(M)] IN
+    \E b \in Sp.bs : \E f \in subjs : \E tg \in tgs :
       Start([blobs |-> b, mans |-> ManMap(M, f), tags |-> tg])
 MCNext == MCChoose \/ PNext \/ Stutter
 MCSpec == PInit /\ [][MCNext]_allvars /\ WF_allvars(MCChoose \/ PNext)
